@@ -1,7 +1,7 @@
 (* The case language interpreter: one case (an s-expression) in, one canonical result line out.
    The same function is evaluated in-kernel (vm_compute) and extracted to OCaml. *)
 From Coq Require Import Strings.String.
-From Iso Require Import Model.Base Model.Sexp Model.Padding Model.Encoding Model.Prefix Model.Network Model.Bitmap Model.Spec Model.Field Model.Message Model.Json Model.MessageOps Model.Describe Model.SpecJson Model.Terms.
+From Iso Require Import Model.Base Model.Sexp Model.Padding Model.Encoding Model.Prefix Model.Network Model.Bitmap Model.Spec Model.Field Model.Message Model.Json Model.MessageOps Model.Describe Model.SpecJson Model.Marshal Model.Terms.
 
 Definition S' (s : string) : bytes := list_byte_of_string s.
 
@@ -414,6 +414,35 @@ Definition run_specjson_import (args : list sexp) : bytes :=
   | _ => bad
   end.
 
+(* (marshal <mspec> <gty> <gval>): Marshal into a fresh message, observe, pack, Unmarshal into the zero value *)
+Definition run_marshal (args : list sexp) : bytes :=
+  match args with
+  | [ms; ty; v] =>
+      match parse_mspec ms, parse_gty ty, parse_gval v with
+      | Some MS, Some t, Some gv =>
+          match m_marshal MS (mfresh MS) t gv with
+          | (_, Panic _) => S' "panic"
+          | (_, OutOfFuel) => S' "outoffuel"
+          | (m1, r1) =>
+              let o1 := match r1 with Ok _ => S' "ok" | _ => S' "err" end in
+              match m_pack MS m1 with
+              | (_, Panic _) => S' "panic"
+              | (_, OutOfFuel) => S' "outoffuel"
+              | (m2, r2) =>
+                  let o2 := match r2 with Ok w => S' "ok " ++ show_hex w | _ => S' "err" end in
+                  let zero := match t with TPtr inner => VPtr (Some (g_zero inner)) | _ => g_zero t end in
+                  match m_unmarshal MS m2 t zero with
+                  | Panic _ => S' "panic"
+                  | OutOfFuel => S' "outoffuel"
+                  | r3 => join (S' " | ") [o1; show_present MS m1; o2; match r3 with Ok g => S' "ok " ++ show_gval g | _ => S' "err" end]
+                  end
+              end
+          end
+      | _, _, _ => bad
+      end
+  | _ => bad
+  end.
+
 Definition dispatch (s : sexp) : bytes :=
   match s with
   | SList (Atom name :: args) =>
@@ -424,6 +453,7 @@ Definition dispatch (s : sexp) : bytes :=
       else if bytes_eqb name (S' "pref.enc") then run_pref_enc args
       else if bytes_eqb name (S' "pref.dec") then run_pref_dec args
       else if bytes_eqb name (S' "bm") then run_bm args
+      else if bytes_eqb name (S' "marshal") then run_marshal args
       else if bytes_eqb name (S' "specjson.export") then run_specjson_export args
       else if bytes_eqb name (S' "specjson.import") then run_specjson_import args
       else if bytes_eqb name (S' "desc.pan") then run_desc 4 args
